@@ -150,6 +150,19 @@ func runC14(c *core.Ctx) {
 			}},
 	}
 
+	baselines := map[string]*htmlform.Form{}
+	baselineOf := func(f c14Form) *htmlform.Form {
+		if b, ok := baselines[f.name]; ok {
+			return b
+		}
+		page, err := f.render("https://peer.example.com/endpoint", "", "benign")
+		var b *htmlform.Form
+		if err == nil {
+			b, _ = htmlform.Parse(page)
+		}
+		baselines[f.name] = b
+		return b
+	}
 	c.Group("forms")
 	for _, f := range forms {
 		for si, s := range strs {
@@ -186,7 +199,7 @@ func runC14(c *core.Ctx) {
 						t.Outcome("error")
 						return
 					}
-					c14CheckPage(t, f, page, u, relay, key)
+					c14CheckPage(t, f, baselineOf(f), page, u, relay, key)
 				})
 			}
 		}
@@ -227,8 +240,18 @@ func runC14(c *core.Ctx) {
 					t.Outcome("no-login-form:" + fmt.Sprint(w.Code))
 					return
 				}
-				lf := c14Form{name: "idp-login", tags: []string{"html", "p", "form", "input", "input", "input", "input", "input"}, fields: []string{"RelayState"}}
-				c14CheckPage(t, lf, page, srv.IDP.LoginURL.String(), s, key)
+				lf := c14Form{name: "idp-login", fields: []string{"RelayState"}}
+				br := idpRequest(method, doc, "benign")
+				if method == "POST" {
+					br = httptest.NewRequest("POST", srv.IDP.SSOURL.String(), strings.NewReader(url.Values{"SAMLRequest": {b64(doc)}, "RelayState": {"benign"}, "user": {"nobody"}, "password": {"wrong"}}.Encode()))
+					br.Header.Set("Content-Type", "application/x-www-form-urlencoded")
+				} else {
+					br.URL.Path = srv.IDP.SSOURL.Path
+				}
+				bw := httptest.NewRecorder()
+				srv.IDP.ServeSSO(bw, br)
+				base, _ := htmlform.Parse(bw.Body.Bytes())
+				c14CheckPage(t, lf, base, page, srv.IDP.LoginURL.String(), s, key)
 			})
 		}
 	}
@@ -236,7 +259,22 @@ func runC14(c *core.Ctx) {
 	c14Metadata(c)
 }
 
-func c14CheckPage(t *core.T, f c14Form, page []byte, u, relay, key string) {
+// sig is the structure of a page: start tags with their attribute names, script bodies, stray text.
+func pageSig(f *htmlform.Form) (tags string, scripts []string, text int) {
+	var sb strings.Builder
+	for _, tg := range f.Tags {
+		sb.WriteString("<" + tg.Name)
+		for _, a := range tg.Attrs {
+			sb.WriteString(" " + a[0])
+		}
+		sb.WriteString(">")
+	}
+	return sb.String(), f.Scripts, len(f.Text)
+}
+
+// c14CheckPage compares the page rendered with hostile strings against the same form rendered with benign strings
+// (differential: robust to edits of the templates themselves).
+func c14CheckPage(t *core.T, f c14Form, base *htmlform.Form, page []byte, u, relay, key string) {
 	t.Compared()
 	hf, err := htmlform.Parse(page)
 	fk := func(k string) string { return "C14/" + f.name + "/" + k }
@@ -250,34 +288,42 @@ func c14CheckPage(t *core.T, f c14Form, page []byte, u, relay, key string) {
 		fail("untokenisable", "%v", err)
 		return
 	}
-	var got []string
-	for _, tg := range hf.Tags {
-		got = append(got, tg.Name)
-	}
-	if strings.Join(got, ",") != strings.Join(f.tags, ",") {
-		fail("structure-changed", "start tags %v, the template has %v", got, f.tags)
+	if base == nil {
+		fail("no-baseline", "the form could not be rendered with benign strings")
 		return
 	}
-	if len(hf.Text) > 0 && f.name != "idp-login" {
-		fail("text-injected", "text outside the form: %q", hf.Text)
+	bt, bs, btxt := pageSig(base)
+	gt, gs, gtxt := pageSig(hf)
+	if gt != bt {
+		fail("structure-changed", "start tags / attribute names are\n  %s\nbut the same form with benign strings has\n  %s", gt, bt)
+		return
 	}
-	// attribute names per tag must be the template's own
-	allowed := map[string]map[string]bool{
-		"form":   {"method": true, "action": true, "id": true},
-		"input":  {"type": true, "name": true, "value": true, "id": true, "placeholder": true},
-		"script": {}, "html": {}, "p": {},
+	if gtxt != btxt {
+		fail("text-injected", "text nodes outside fields: %q", hf.Text)
 	}
-	for _, tg := range hf.Tags {
-		seen := map[string]bool{}
-		for _, a := range tg.Attrs {
-			if !allowed[tg.Name][a[0]] || seen[a[0]] {
-				fail("attribute-injected", "tag <%s> carries unexpected or repeated attribute %q=%q", tg.Name, a[0], truncStr(a[1], 60))
+	if hf.NForms != base.NForms {
+		fail("form-count", "%d forms", hf.NForms)
+	}
+	if len(gs) != len(bs) {
+		fail("script-count", "%d scripts, benign rendering has %d", len(gs), len(bs))
+	} else {
+		for i := range bs {
+			if gs[i] != bs[i] {
+				fail("script-body-changed", "script %d is %q", i, truncStr(gs[i], 120))
 			}
-			seen[a[0]] = true
 		}
 	}
-	if hf.NForms != 1 {
-		fail("form-count", "%d forms", hf.NForms)
+	// every attribute other than the interpolated ones must be byte-identical to the benign rendering
+	for i, tg := range hf.Tags {
+		for j, a := range tg.Attrs {
+			ba := base.Tags[i].Attrs[j]
+			if a[0] == "value" || a[0] == "action" {
+				continue
+			}
+			if a[1] != ba[1] {
+				fail("attribute-value-changed", "<%s %s=%q> differs from the benign rendering (%q)", tg.Name, a[0], truncStr(a[1], 60), ba[1])
+			}
+		}
 	}
 	if scriptScheme(hf.Action) {
 		fail("script-url-in-action", "form action %q resolves to a script-bearing scheme", hf.Action)
@@ -296,24 +342,6 @@ func c14CheckPage(t *core.T, f c14Form, page []byte, u, relay, key string) {
 			fail("field-missing", "hidden field %s missing", name)
 		} else if tokNL(v) != tokNL(relay) {
 			fail("field-altered", "hidden field %s = %+q, input %+q", name, v, relay)
-		}
-	}
-	for _, tg := range hf.Tags {
-		if tg.Name == "input" {
-			if ty, _ := tg.Attr("type"); ty != "hidden" && ty != "submit" && ty != "text" && ty != "password" {
-				fail("input-type-changed", "input type %q", ty)
-			}
-		}
-	}
-	if f.script != nil {
-		if len(hf.Scripts) != len(f.script) {
-			fail("script-count", "%d scripts", len(hf.Scripts))
-		} else {
-			for i := range f.script {
-				if hf.Scripts[i] != f.script[i] {
-					fail("script-body-changed", "script %d is %q", i, truncStr(hf.Scripts[i], 120))
-				}
-			}
 		}
 	}
 	t.Outcome("inert")
